@@ -72,10 +72,15 @@ func (g *Gen) ghostVars() map[string]Val {
 		for k, v := range g.params {
 			cx.vars[k] = v
 		}
+		g.gvDef = map[string]Val{}
 		for _, gd := range g.con.Ghost {
 			def := g.evalSpec(gd.Expr, cx)
 			if def.T == nil {
 				def = Val{T: types.Typ[types.Int], C: []Term{g.unifyTo(def.C[0], g.intRep())}}
+			}
+			if gd.Var {
+				g.gvDef[gd.Name] = def
+				continue
 			}
 			v := Val{T: def.T}
 			for _, c := range def.C {
@@ -88,11 +93,40 @@ func (g *Gen) ghostVars() map[string]Val {
 	for k, gh := range g.fnGhosts {
 		out[k] = gh.val
 	}
+	for k, def := range g.gvDef {
+		if v, ok := g.st.gv[k]; ok && g.st != nil {
+			out[k] = v
+		} else {
+			out[k] = def
+		}
+	}
 	return out
+}
+
+// gvCur: current value of a mutable ghost in a state
+func (g *Gen) gvCur(st *State, name string) Val {
+	if v, ok := st.gv[name]; ok {
+		return v
+	}
+	return g.gvDef[name]
 }
 
 func (g *Gen) assignGhost(name string, v Val) {
 	g.ghostVars()
+	if def, ok := g.gvDef[name]; ok {
+		if len(v.C) != len(def.C) {
+			oos("ghost %s: shape mismatch", name)
+		}
+		nv := Val{T: def.T}
+		for i := range v.C {
+			nv.C = append(nv.C, g.define("gv_"+name, g.unifyTo(v.C[i], def.C[i].Sort)))
+		}
+		if g.st.gv == nil {
+			g.st.gv = map[string]Val{}
+		}
+		g.st.gv[name] = nv
+		return
+	}
 	gh := g.fnGhosts[name]
 	if gh == nil {
 		oos("ghost %s is not declared (ghost %s = <entry value>)", name, name)
